@@ -343,7 +343,7 @@ def p_c10(run):
               [p_ for p_ in W.key_parts("128", q) + W.key_parts("64", q) if "_st_" not in p_] +
               [p_ for p_ in (W.QUICK_MKEY if q else W.MKEY_PARTS) if "setkey" in p_])
     # the same key lengths through the key-setting functions of the CTR back ends (WholeCtrKey.v)
-    whole_tie(run, ("native",) if q else ("native", "w32", "noua"), W.kctr_parts(q, "key"))
+    whole_tie(run, ("native",) if q else ("native", "w32", "noua"), W.kctr_parts(q, "key") + W.kpar_parts(q))
     run_scripts(run, G.gen_c10(run.rng, run.tier), vs)
 
 def p_c13(run):
